@@ -1,0 +1,324 @@
+//go:build verif
+
+// Contracts for the short-Weierstrass point arithmetic of this group (comment-only; installed by /verif/gcv gen-contracts).
+// Layer "ring": coordinates are elements of an abstract commutative ring. The inputs are parametrised by the affine
+// point they represent and their projective scaling ("let p.X = px*p.Z*p.Z": a substitution, no hypothesis remains),
+// so every clause is a polynomial identity over the integers, valid in every commutative ring.
+// ecAddXNum/ecAddYNum/ecD and ecDblXNum/ecDblYNum are the numerators and denominators of the textbook
+// chord and tangent rules (x3 = XNum/D^2, y3 = YNum/D^3; tangent: denominators (2y)^2, (2y)^3), computed by the tool.
+// A Jacobian triple (X,Y,Z) represents (x,y) when X = x Z^2, Y = y Z^3; an extended one (X,Y,ZZ,ZZZ) when
+// ZZ = t^2, ZZZ = t^3, X = x ZZ, Y = y ZZZ. Each result clause has the form  X3 * den == num * Z3^2  (the result
+// represents the textbook point) plus the exact scaling Z3 (which shows that the result is finite when it should be).
+
+package bls12377
+
+//@ func G1Jac.AddAssign
+//@ layer ring fp.Element
+//@ option distribute
+//@ ghost-param px, py, qx, qy
+//@ let p.X = px*p.Z*p.Z
+//@ let p.Y = py*p.Z*p.Z*p.Z
+//@ let q.X = qx*q.Z*q.Z
+//@ let q.Y = qy*q.Z*q.Z*q.Z
+//@ ghost pinf = iszero(p.Z)
+//@ ghost qinf = iszero(q.Z)
+//@ ghost same = iszero(q.X*p.Z*p.Z - p.X*q.Z*q.Z) && iszero(q.Y*p.Z*p.Z*p.Z - p.Y*q.Z*q.Z*q.Z)
+//@ ensures[p-infinity] pinf ==> p.X == old(q.X) && p.Y == old(q.Y) && p.Z == old(q.Z)
+//@ ensures[q-infinity] !pinf && qinf ==> p.X == old(p.X) && p.Y == old(p.Y) && p.Z == old(p.Z)
+//@ ensures[double-x] !pinf && !qinf && same ==> p.X * 4*py*py == ecDblXNum(px, py, 0) * p.Z*p.Z
+//@ ensures[double-y] !pinf && !qinf && same ==> p.Y * 8*py*py*py == ecDblYNum(px, py, 0) * p.Z*p.Z*p.Z
+//@ ensures[double-z] !pinf && !qinf && same ==> p.Z == 2*py*pow(old(p.Z),4)
+//@ ensures[chord-x] !pinf && !qinf && !same ==> p.X * pow(ecD(px,py,qx,qy),2) == ecAddXNum(px,py,qx,qy) * p.Z*p.Z
+//@ ensures[chord-y] !pinf && !qinf && !same ==> p.Y * pow(ecD(px,py,qx,qy),3) == ecAddYNum(px,py,qx,qy) * p.Z*p.Z*p.Z
+//@ ensures[chord-z] !pinf && !qinf && !same ==> p.Z == -2*ecD(px,py,qx,qy)*pow(old(p.Z),3)*pow(old(q.Z),3)
+//@ ensures[result] result == p
+//@ modifies p
+//@ end
+
+//@ func G1Jac.DoubleAssign
+//@ layer ring fp.Element
+//@ option distribute
+//@ ghost-param px, py
+//@ let p.X = px*p.Z*p.Z
+//@ let p.Y = py*p.Z*p.Z*p.Z
+//@ ensures[x] p.X * 4*py*py == ecDblXNum(px, py, 0) * p.Z*p.Z
+//@ ensures[y] p.Y * 8*py*py*py == ecDblYNum(px, py, 0) * p.Z*p.Z*p.Z
+//@ ensures[z] p.Z == 2*py*pow(old(p.Z),4)
+//@ ensures[result] result == p
+//@ modifies p
+//@ end
+
+//@ func G1Jac.Double
+//@ layer ring fp.Element
+//@ option distribute
+//@ ghost-param px, py
+//@ let q.X = px*q.Z*q.Z
+//@ let q.Y = py*q.Z*q.Z*q.Z
+//@ ensures[x] p.X * 4*py*py == ecDblXNum(px, py, 0) * p.Z*p.Z
+//@ ensures[y] p.Y * 8*py*py*py == ecDblYNum(px, py, 0) * p.Z*p.Z*p.Z
+//@ ensures[z] p.Z == 2*py*pow(old(q.Z),4)
+//@ ensures[result] result == p
+//@ modifies p
+//@ end
+
+//@ func G1Jac.DoubleMixed
+//@ layer ring fp.Element
+//@ option distribute
+//@ ensures[x] p.X * 4*a.Y*a.Y == ecDblXNum(a.X, a.Y, 0) * p.Z*p.Z
+//@ ensures[y] p.Y * 8*a.Y*a.Y*a.Y == ecDblYNum(a.X, a.Y, 0) * p.Z*p.Z*p.Z
+//@ ensures[z] p.Z == 2*a.Y
+//@ ensures[result] result == p
+//@ modifies p
+//@ end
+
+//@ func G1Jac.AddMixed
+//@ layer ring fp.Element
+//@ option distribute
+//@ ghost-param px, py
+//@ let p.X = px*p.Z*p.Z
+//@ let p.Y = py*p.Z*p.Z*p.Z
+//@ ghost ainf = iszero(a.X) && iszero(a.Y)
+//@ ghost pinf = iszero(p.Z)
+//@ ghost same = iszero(a.X*p.Z*p.Z - p.X) && iszero(a.Y*p.Z*p.Z*p.Z - p.Y)
+//@ ensures[a-infinity] ainf ==> p.X == old(p.X) && p.Y == old(p.Y) && p.Z == old(p.Z)
+//@ ensures[p-infinity] !ainf && pinf ==> p.X == a.X && p.Y == a.Y && p.Z == 1
+//@ ensures[double-x] !ainf && !pinf && same ==> p.X * 4*a.Y*a.Y == ecDblXNum(a.X, a.Y, 0) * p.Z*p.Z
+//@ ensures[double-y] !ainf && !pinf && same ==> p.Y * 8*a.Y*a.Y*a.Y == ecDblYNum(a.X, a.Y, 0) * p.Z*p.Z*p.Z
+//@ ensures[double-z] !ainf && !pinf && same ==> p.Z == 2*a.Y
+//@ ensures[chord-x] !ainf && !pinf && !same ==> p.X * pow(ecD(px,py,a.X,a.Y),2) == ecAddXNum(px,py,a.X,a.Y) * p.Z*p.Z
+//@ ensures[chord-y] !ainf && !pinf && !same ==> p.Y * pow(ecD(px,py,a.X,a.Y),3) == ecAddYNum(px,py,a.X,a.Y) * p.Z*p.Z*p.Z
+//@ ensures[chord-z] !ainf && !pinf && !same ==> p.Z == 2*ecD(px,py,a.X,a.Y)*pow(old(p.Z),3)
+//@ ensures[result] result == p
+//@ modifies p
+//@ end
+
+//@ func G1Jac.Neg
+//@ layer ring fp.Element
+//@ option distribute
+//@ option inline
+//@ ensures[value] p.X == old(q.X) && p.Y == -old(q.Y) && p.Z == old(q.Z)
+//@ ensures[result] result == p
+//@ modifies p
+//@ end
+
+//@ func G1Jac.Set
+//@ layer ring fp.Element
+//@ option distribute
+//@ option inline
+//@ ensures[value] p.X == old(q.X) && p.Y == old(q.Y) && p.Z == old(q.Z)
+//@ ensures[result] result == p
+//@ modifies p
+//@ end
+
+//@ func G1Jac.SubAssign
+//@ layer ring fp.Element
+//@ option distribute
+//@ ghost-param px, py, qx, qy
+//@ let p.X = px*p.Z*p.Z
+//@ let p.Y = py*p.Z*p.Z*p.Z
+//@ let q.X = qx*q.Z*q.Z
+//@ let q.Y = qy*q.Z*q.Z*q.Z
+//@ ghost pinf = iszero(p.Z)
+//@ ghost qinf = iszero(q.Z)
+//@ ghost same = iszero(q.X*p.Z*p.Z - p.X*q.Z*q.Z) && iszero(-q.Y*p.Z*p.Z*p.Z - p.Y*q.Z*q.Z*q.Z)
+//@ ensures[p-infinity] pinf ==> p.X == old(q.X) && p.Y == -old(q.Y) && p.Z == old(q.Z)
+//@ ensures[q-infinity] !pinf && qinf ==> p.X == old(p.X) && p.Y == old(p.Y) && p.Z == old(p.Z)
+//@ ensures[double-x] !pinf && !qinf && same ==> p.X * 4*py*py == ecDblXNum(px, py, 0) * p.Z*p.Z
+//@ ensures[double-y] !pinf && !qinf && same ==> p.Y * 8*py*py*py == ecDblYNum(px, py, 0) * p.Z*p.Z*p.Z
+//@ ensures[chord-x] !pinf && !qinf && !same ==> p.X * pow(ecD(px,py,qx,-qy),2) == ecAddXNum(px,py,qx,-qy) * p.Z*p.Z
+//@ ensures[chord-y] !pinf && !qinf && !same ==> p.Y * pow(ecD(px,py,qx,-qy),3) == ecAddYNum(px,py,qx,-qy) * p.Z*p.Z*p.Z
+//@ ensures[chord-z] !pinf && !qinf && !same ==> p.Z == -2*ecD(px,py,qx,-qy)*pow(old(p.Z),3)*pow(old(q.Z),3)
+//@ ensures[result] result == p
+//@ modifies p
+//@ end
+
+//@ func G1Jac.FromAffine
+//@ layer ring fp.Element
+//@ option distribute
+//@ ghost ainf = iszero(a.X) && iszero(a.Y)
+//@ ensures[infinity] ainf ==> p.Z == 0
+//@ ensures[finite] !ainf ==> p.X == a.X && p.Y == a.Y && p.Z == 1
+//@ ensures[result] result == p
+//@ modifies p
+//@ end
+
+//@ func G1Jac.IsOnCurve
+//@ layer ring fp.Element
+//@ option distribute
+//@ ensures[value] result == iszero(p.Y*p.Y - p.X*p.X*p.X - 0*p.X*pow(p.Z,4) - 1*pow(p.Z,6))
+//@ modifies nothing
+//@ end
+
+//@ func G1Jac.Equal
+//@ layer ring fp.Element
+//@ option distribute
+//@ ghost pinf = iszero(p.Z)
+//@ ghost qinf = iszero(q.Z)
+//@ ensures[p-infinity] pinf ==> result == qinf
+//@ ensures[q-infinity] !pinf && qinf ==> result == false
+//@ ensures[finite] !pinf && !qinf ==> result == (iszero(p.X*q.Z*q.Z - q.X*p.Z*p.Z) && iszero(p.Y*q.Z*q.Z*q.Z - q.Y*p.Z*p.Z*p.Z))
+//@ modifies nothing
+//@ end
+
+//@ func G1Affine.Neg
+//@ layer ring fp.Element
+//@ option distribute
+//@ option inline
+//@ ensures[value] p.X == old(a.X) && p.Y == -old(a.Y)
+//@ ensures[result] result == p
+//@ modifies p
+//@ end
+
+//@ func G1Affine.IsInfinity
+//@ layer ring fp.Element
+//@ option distribute
+//@ option inline
+//@ ensures[value] result == (iszero(p.X) && iszero(p.Y))
+//@ modifies nothing
+//@ end
+
+//@ func G1Affine.IsOnCurve
+//@ layer ring fp.Element
+//@ option distribute
+//@ ensures[value] result == ((iszero(p.X) && iszero(p.Y)) || iszero(p.Y*p.Y - p.X*p.X*p.X - 0*p.X - bCurveCoeff))
+//@ modifies nothing
+//@ end
+
+//@ func G1Affine.FromJacobian
+//@ layer ring fp.Element
+//@ option distribute
+//@ alias none
+//@ ensures[infinity] iszero(p1.Z) ==> p.X == 0 && p.Y == 0
+//@ ensures[finite] !iszero(p1.Z) ==> p.X == p1.X*inv(p1.Z)*inv(p1.Z) && p.Y == p1.Y*inv(p1.Z)*inv(p1.Z)*inv(p1.Z)
+//@ ensures[result] result == p
+//@ modifies p
+//@ end
+
+// ---------------- extended Jacobian (XYZZ) ----------------
+
+//@ func g1JacExtended.add
+//@ layer ring fp.Element
+//@ option distribute
+//@ alias none
+//@ ghost-param px, py, t, qx, qy, s
+//@ let p.ZZ = t*t
+//@ let p.ZZZ = t*t*t
+//@ let p.X = px*t*t
+//@ let p.Y = py*t*t*t
+//@ let q.ZZ = s*s
+//@ let q.ZZZ = s*s*s
+//@ let q.X = qx*s*s
+//@ let q.Y = qy*s*s*s
+//@ ghost qinf = iszero(q.ZZ)
+//@ ghost pinf = iszero(p.ZZ)
+//@ ghost eqx = iszero(q.X*p.ZZ - p.X*q.ZZ)
+//@ ghost eqy = iszero(q.Y*p.ZZZ - p.Y*q.ZZZ)
+//@ ensures[q-infinity] qinf ==> p.X == old(p.X) && p.Y == old(p.Y) && p.ZZ == old(p.ZZ) && p.ZZZ == old(p.ZZZ)
+//@ ensures[p-infinity] !qinf && pinf ==> p.X == old(q.X) && p.Y == old(q.Y) && p.ZZ == old(q.ZZ) && p.ZZZ == old(q.ZZZ)
+//@ ensures[opposite] !qinf && !pinf && eqx && !eqy ==> p.ZZ == 0 && p.ZZZ == 0
+//@ ensures[double-x] !qinf && !pinf && eqx && eqy ==> p.X * 4*qy*qy == ecDblXNum(qx, qy, 0) * p.ZZ
+//@ ensures[double-y] !qinf && !pinf && eqx && eqy ==> p.Y * 8*qy*qy*qy == ecDblYNum(qx, qy, 0) * p.ZZZ
+//@ ensures[double-z] !qinf && !pinf && eqx && eqy ==> p.ZZ == pow(2*qy*pow(s,4),2) && p.ZZZ == pow(2*qy*pow(s,4),3)
+//@ ensures[chord-x] !qinf && !pinf && !eqx ==> p.X * pow(ecD(px,py,qx,qy),2) == ecAddXNum(px,py,qx,qy) * p.ZZ
+//@ ensures[chord-y] !qinf && !pinf && !eqx ==> p.Y * pow(ecD(px,py,qx,qy),3) == ecAddYNum(px,py,qx,qy) * p.ZZZ
+//@ ensures[chord-z] !qinf && !pinf && !eqx ==> p.ZZ == pow(ecD(px,py,qx,qy)*pow(t,3)*pow(s,3),2) && p.ZZZ == pow(ecD(px,py,qx,qy)*pow(t,3)*pow(s,3),3)
+//@ ensures[result] result == p
+//@ modifies p
+//@ end
+
+//@ func g1JacExtended.double
+//@ layer ring fp.Element
+//@ option distribute
+//@ ghost-param qx, qy, s
+//@ let q.ZZ = s*s
+//@ let q.ZZZ = s*s*s
+//@ let q.X = qx*s*s
+//@ let q.Y = qy*s*s*s
+//@ ensures[x] p.X * 4*qy*qy == ecDblXNum(qx, qy, 0) * p.ZZ
+//@ ensures[y] p.Y * 8*qy*qy*qy == ecDblYNum(qx, qy, 0) * p.ZZZ
+//@ ensures[z] p.ZZ == pow(2*qy*pow(s,4),2) && p.ZZZ == pow(2*qy*pow(s,4),3)
+//@ ensures[result] result == p
+//@ modifies p
+//@ end
+
+//@ func g1JacExtended.doubleMixed
+//@ layer ring fp.Element
+//@ option distribute
+//@ ensures[x] p.X * 4*a.Y*a.Y == ecDblXNum(a.X, a.Y, 0) * p.ZZ
+//@ ensures[y] p.Y * 8*a.Y*a.Y*a.Y == ecDblYNum(a.X, a.Y, 0) * p.ZZZ
+//@ ensures[z] p.ZZ == pow(2*a.Y,2) && p.ZZZ == pow(2*a.Y,3)
+//@ ensures[result] result == p
+//@ modifies p
+//@ end
+
+//@ func g1JacExtended.doubleNegMixed
+//@ layer ring fp.Element
+//@ option distribute
+//@ ensures[x] p.X * 4*a.Y*a.Y == ecDblXNum(a.X, -a.Y, 0) * p.ZZ
+//@ ensures[y] p.Y * 8*(-a.Y)*a.Y*a.Y == ecDblYNum(a.X, -a.Y, 0) * p.ZZZ
+//@ ensures[z] p.ZZ == pow(-2*a.Y,2) && p.ZZZ == pow(-2*a.Y,3)
+//@ ensures[result] result == p
+//@ modifies p
+//@ end
+
+//@ func g1JacExtended.addMixed
+//@ layer ring fp.Element
+//@ option distribute
+//@ ghost-param px, py, t
+//@ let p.ZZ = t*t
+//@ let p.ZZZ = t*t*t
+//@ let p.X = px*t*t
+//@ let p.Y = py*t*t*t
+//@ ghost ainf = iszero(a.X) && iszero(a.Y)
+//@ ghost pinf = iszero(p.ZZ)
+//@ ghost eqx = iszero(a.X*p.ZZ - p.X)
+//@ ghost eqy = iszero(a.Y*p.ZZZ - p.Y)
+//@ ensures[a-infinity] ainf ==> p.X == old(p.X) && p.Y == old(p.Y) && p.ZZ == old(p.ZZ) && p.ZZZ == old(p.ZZZ)
+//@ ensures[p-infinity] !ainf && pinf ==> p.X == a.X && p.Y == a.Y && p.ZZ == 1 && p.ZZZ == 1
+//@ ensures[opposite] !ainf && !pinf && eqx && !eqy ==> p.ZZ == 0 && p.ZZZ == 0
+//@ ensures[double-x] !ainf && !pinf && eqx && eqy ==> p.X * 4*a.Y*a.Y == ecDblXNum(a.X, a.Y, 0) * p.ZZ
+//@ ensures[double-y] !ainf && !pinf && eqx && eqy ==> p.Y * 8*a.Y*a.Y*a.Y == ecDblYNum(a.X, a.Y, 0) * p.ZZZ
+//@ ensures[double-z] !ainf && !pinf && eqx && eqy ==> p.ZZ == pow(2*a.Y,2) && p.ZZZ == pow(2*a.Y,3)
+//@ ensures[chord-x] !ainf && !pinf && !eqx ==> p.X * pow(ecD(px,py,a.X,a.Y),2) == ecAddXNum(px,py,a.X,a.Y) * p.ZZ
+//@ ensures[chord-y] !ainf && !pinf && !eqx ==> p.Y * pow(ecD(px,py,a.X,a.Y),3) == ecAddYNum(px,py,a.X,a.Y) * p.ZZZ
+//@ ensures[chord-z] !ainf && !pinf && !eqx ==> p.ZZ == pow(ecD(px,py,a.X,a.Y)*pow(t,3),2) && p.ZZZ == pow(ecD(px,py,a.X,a.Y)*pow(t,3),3)
+//@ ensures[result] result == p
+//@ modifies p
+//@ end
+
+//@ func g1JacExtended.subMixed
+//@ layer ring fp.Element
+//@ option distribute
+//@ ghost-param px, py, t
+//@ let p.ZZ = t*t
+//@ let p.ZZZ = t*t*t
+//@ let p.X = px*t*t
+//@ let p.Y = py*t*t*t
+//@ ghost ainf = iszero(a.X) && iszero(a.Y)
+//@ ghost pinf = iszero(p.ZZ)
+//@ ghost eqx = iszero(a.X*p.ZZ - p.X)
+//@ ghost eqy = iszero(-a.Y*p.ZZZ - p.Y)
+//@ ensures[a-infinity] ainf ==> p.X == old(p.X) && p.Y == old(p.Y) && p.ZZ == old(p.ZZ) && p.ZZZ == old(p.ZZZ)
+//@ ensures[p-infinity] !ainf && pinf ==> p.X == a.X && p.Y == -a.Y && p.ZZ == 1 && p.ZZZ == 1
+//@ ensures[opposite] !ainf && !pinf && eqx && !eqy ==> p.ZZ == 0 && p.ZZZ == 0
+//@ ensures[double-x] !ainf && !pinf && eqx && eqy ==> p.X * 4*a.Y*a.Y == ecDblXNum(a.X, -a.Y, 0) * p.ZZ
+//@ ensures[double-y] !ainf && !pinf && eqx && eqy ==> p.Y * 8*(-a.Y)*a.Y*a.Y == ecDblYNum(a.X, -a.Y, 0) * p.ZZZ
+//@ ensures[chord-x] !ainf && !pinf && !eqx ==> p.X * pow(ecD(px,py,a.X,-a.Y),2) == ecAddXNum(px,py,a.X,-a.Y) * p.ZZ
+//@ ensures[chord-y] !ainf && !pinf && !eqx ==> p.Y * pow(ecD(px,py,a.X,-a.Y),3) == ecAddYNum(px,py,a.X,-a.Y) * p.ZZZ
+//@ ensures[chord-z] !ainf && !pinf && !eqx ==> p.ZZ == pow(ecD(px,py,a.X,-a.Y)*pow(t,3),2) && p.ZZZ == pow(ecD(px,py,a.X,-a.Y)*pow(t,3),3)
+//@ ensures[result] result == p
+//@ modifies p
+//@ end
+
+//@ func G1Jac.unsafeFromJacExtended
+//@ layer ring fp.Element
+//@ option distribute
+//@ ghost-param qx, qy, s
+//@ let q.ZZ = s*s
+//@ let q.ZZZ = s*s*s
+//@ let q.X = qx*s*s
+//@ let q.Y = qy*s*s*s
+//@ ensures[value] p.X == qx*p.Z*p.Z && p.Y == qy*p.Z*p.Z*p.Z && p.Z == pow(s,3)
+//@ ensures[result] result == p
+//@ modifies p
+//@ end
